@@ -137,7 +137,8 @@ PROPS["C17"]["assumptions"] = list(PROPS["C17"]["assumptions"]) + [
 
 MANIFEST_TEXT["C17"] = dict(
     text="Generated and (for a tiny vocabulary) exhaustively enumerated texts are formatted and the output is judged by validity "
-         "predicates - same word sequence, newline separation, indentation prefix, width unless single word - not by one expected layout. " + EXPL,
+         "predicates - same word sequence, newline separation, indentation prefix, width unless single word - not by one expected layout; "
+         "the same width predicate is applied to the argument descriptions of generated usage outputs (the usage printer is the class's caller). " + EXPL,
     design_ref="DESIGN.md section 4, C17",
     note="Trusts the word/line splitting of the harness; layout choices the property leaves open (how greedily lines are filled) are not judged.",
     technique="property-based testing (rapidcheck) + bounded exhaustive enumeration against validity predicates")
